@@ -673,6 +673,12 @@ func (c *conductorT) loop(driver *grec) {
 			}
 			if lockWaiters > 0 {
 				c.deadlock = c.describeDeadlock(&parked)
+				if os.Getenv("VERIF_STACKS") != "" {
+					// debugging aid for replays: where everybody is
+					buf := make([]byte, 1<<20)
+					n := runtime.Stack(buf, true)
+					os.Stderr.Write(buf[:n])
+				}
 			}
 			if driver.state == gDone || c.deadlock != "" {
 				return
